@@ -54,7 +54,7 @@ impl Sender {
 //@@ awaitcall
 //@@ generics
 //@@ param sendable : Sendable
-//@@ subst `.send_with_state::<T, SendError>(sendable.into(), None, false)` => `.send_with_state(sendable_into(sendable), None, false)` rule=R7
+//@@ subst `.send_with_state::<T, SendError>(sendable.into(), __E1)` => `.send_with_state(sendable_into(sendable), __E1)` rule=R7
 //@@ subst `.map(|settlement| { __E1 })` => `.map(|settlement: Settlement| -> (o: DeliveryFut) ensures o.settlement == settlement && o.stop == self.inner.link.session_stop_reason { __E1 })` rule=R18
 //@@ spec
     ensures
@@ -68,7 +68,7 @@ impl Sender {
 //@@ generics
 //@@ param sendable : Sendable
 //@@ ret Result<DeliveryFut, SendError>
-//@@ subst `.send_with_state(sendable.into(), None, true)` => `.send_with_state(sendable_into(sendable), None, true)` rule=R7
+//@@ subst `.send_with_state(sendable.into(), __E1)` => `.send_with_state(sendable_into(sendable), __E1)` rule=R7
 //@@ subst `.map(|settlement| { __E1 })` => `.map(|settlement: Settlement| -> (o: DeliveryFut) ensures o.settlement == settlement && o.stop == self.inner.link.session_stop_reason { __E1 })` rule=R18
 //@@ spec
     ensures
